@@ -34,3 +34,5 @@
 (declare-fun condSem (Any Int) Bool)
 ; the JSONPath a field reference denotes (jsonpath.GetJSONPath), abstract
 (declare-fun jpath (Str) Str)
+; math.Floor on float64: round toward negative infinity (exact; Floor(+-0) = +-0, NaN and infinities unchanged)
+(define-fun ffloor ((x F64)) F64 (fp.roundToIntegral RTN x))
